@@ -144,7 +144,7 @@ func extractC02(f *facts) {
 	// --- hit: critical section ---
 	var cs []string
 	tsOutside, seqOutside := 0, 0
-	tsFromBegan, latencyInDefer := false, false
+	tsFromBegan, latencyInDefer, tsClockInCS := false, false, false
 	if fd := funcDecl(file, "Attacker", "hit"); fd != nil && fd.Body != nil {
 		inCS := false
 		for _, s := range fd.Body.List {
@@ -163,6 +163,15 @@ func extractC02(f *facts) {
 				if as, ok := s.(*ast.AssignStmt); ok && selName(as.Lhs[0]) == "Timestamp" {
 					r := render(f.fset, as.Rhs[0])
 					tsFromBegan = strings.Contains(r, "began")
+					// the clock must be read inside the critical section, not merely assigned there
+					ast.Inspect(as.Rhs[0], func(n ast.Node) bool {
+						if c, ok := n.(*ast.CallExpr); ok {
+							if nm := selName(c.Fun); nm == "Since" || nm == "Now" {
+								tsClockInCS = true
+							}
+						}
+						return true
+					})
 				}
 			}
 		}
@@ -217,6 +226,7 @@ func extractC02(f *facts) {
 	f.def("hitSeqAssignsOutsideCS", "Nat", itoa(seqOutside))
 	f.def("hitTimestampFromBegan", "Bool", leanBool(tsFromBegan))
 	f.def("hitLatencyInDeferFromTimestamp", "Bool", leanBool(latencyInDefer))
+	f.def("hitTimestampClockReadInCS", "Bool", leanBool(tsClockInCS))
 }
 
 func itoa(n int) string { return strings.TrimSpace(strings.Replace(strings.Replace(render0(n), "\n", "", -1), " ", "", -1)) }
